@@ -7,6 +7,10 @@
 //!                              a sweep: the `h` file with header word `<word>` set to
 //!                              `start + k*stride` for `k < count` (values ≥ 2^16 skipped); the
 //!                              model queries of a sweep are pipelined. Shrinks to one `h` case.
+//!   `hc <24> <fill> <hex> <word> <start> <count> <stride>`
+//!                              the same sweep, but `lf` and the file length are recomputed
+//!                              for every value so that the size table stays consistent (the
+//!                              values reach the accepting path and the sub-file bodies).
 //!   `b <hex>`                  literal bytes.
 //!   `t <file> <mut>*`          a corpus .tfm (path relative to `<repo>/crates/`) with byte
 //!                              mutations `T<n>` truncate to n, `S<pos>:<byte>` set a byte,
@@ -828,7 +832,7 @@ impl Property for C10 {
     }
     fn rule(&self) -> String {
         "hs/h: every value of each of the twelve header words (all 2^16 in thorough; stride 64 plus 48 consecutive values at 0, 232, 32744 and 65488 in quick; one hs case = one sweep of up to 256 values, the number of values is in extra.header_word_values_evaluated_in_hs_sweeps) against five base files \
-         (16-byte, 24-byte, minimal consistent 48-byte, a 72-byte consistent file with junk, a 131 068-byte file with lf=32767: stride 8 there except lf and nw), then random consistent size tables with random bodies and random 1-3-word damage; \
+         (16-byte, 24-byte, minimal consistent 48-byte, a 72-byte consistent file with junk, a 131 068-byte file with lf=32767: stride 8 there except lf and nw), hc: every word of two consistent tables swept with lf and the file length following (0..320 dense in quick, 0..2048 in thorough, sparse to 2^16); then random consistent size tables with random bodies and random 1-3-word damage; \
          t: every corpus .tfm under crates/tfm*/ — all truncation lengths that are multiples of 4 around every sub-file boundary plus random ones, random single-byte and header-word mutations; \
          p: every corpus .plst/.pl — random token mutations (paren deletion/insertion, out-of-range and huge numbers, keyword swaps, undeclared characters in labels, cuts, deep nesting, repeats); \
          pt: random small property lists from the grammar with deliberate violations. Every tftopl output is fed to pltotf and every pltotf output to the reader and tftopl. \
@@ -914,6 +918,23 @@ impl Property for C10 {
                     for b in &boundary_starts {
                         v.push(format!("hs {len} {fill} {hexbase} {w} {b} 48 1"));
                     }
+                }
+            }
+        }
+        // hc: every word of two consistent bases moves while lf and the length follow it
+        for (fill, words) in [(0u64, [12i64, 2, 1, 0, 1, 1, 1, 1, 0, 0, 0, 0]), (11, [26, 3, 65, 70, 3, 2, 2, 2, 2, 1, 1, 1])] {
+            let hexbase = hex(&header_from(&words));
+            for w in 1..12 {
+                let top = if th { 2048 } else { 320 };
+                let mut start = 0;
+                while start < top {
+                    v.push(format!("hc 24 {fill} {hexbase} {w} {start} 64 1"));
+                    start += 64;
+                }
+                // sparse up to and past 2^15
+                v.push(format!("hc 24 {fill} {hexbase} {w} {} 64 {}", top, if th { 97 } else { 509 }));
+                for b in [32700usize, 65500] {
+                    v.push(format!("hc 24 {fill} {hexbase} {w} {b} {} 1", if th { 36 } else { 8 }));
                 }
             }
         }
@@ -1076,28 +1097,44 @@ impl Property for C10 {
         let mut out = CaseOutcome::default();
         let (cmd, rest) = case.split_once(' ').unwrap_or((case, ""));
         match cmd {
-            "hs" => {
-                // a sweep: `hs <len> <fill> <hex> <word> <start> <count> <stride>`
+            "hs" | "hc" => {
+                // a sweep: `hs <len> <fill> <hex> <word> <start> <count> <stride>`; `hc` recomputes
+                // lf and the file length for every value so that the table stays consistent
                 let w: Vec<&str> = rest.split(' ').collect();
-                let (len, fill, base, word): (usize, u64, Vec<u8>, usize) = (w[0].parse().unwrap(), w[1].parse().unwrap(), unhex(w[2]), w[3].parse().unwrap());
+                let (len, fill, word): (usize, u64, usize) = (w[0].parse().unwrap(), w[1].parse().unwrap(), w[3].parse().unwrap());
                 let (start, count, stride): (usize, usize, usize) = (w[4].parse().unwrap(), w[5].parse().unwrap(), w[6].parse().unwrap());
-                let mut bytes = self.bytes_of_case("h", &format!("{len} {fill} {}", w[2]));
-                let _ = base;
                 let vals: Vec<u16> = (0..count).map(|k| start + k * stride).filter(|x| *x < 65536).map(|x| x as u16).collect();
+                let mut files: Vec<Vec<u8>> = vec![];
+                let mut bytes = self.bytes_of_case("h", &format!("{len} {fill} {}", w[2]));
                 let mut reqs = vec![];
                 for x in &vals {
                     if 2 * word + 1 < bytes.len() {
                         bytes[2 * word] = (*x >> 8) as u8;
                         bytes[2 * word + 1] = *x as u8;
                     }
+                    if cmd == "hc" && bytes.len() >= 24 {
+                        let g = |i: usize| header_word(&bytes, i);
+                        let lf = 6 + g(1) + (g(3) - g(2) + 1) + g(4) + g(5) + g(6) + g(7) + g(8) + g(9) + g(10) + g(11);
+                        let lf16 = lf as u16;
+                        bytes[0] = (lf16 >> 8) as u8;
+                        bytes[1] = lf16 as u8;
+                        let want = if (6..=32767).contains(&lf) { 4 * lf as usize } else { 24 };
+                        bytes.truncate(want.max(24));
+                        while bytes.len() < want {
+                            bytes.push(fill_byte(bytes.len(), fill));
+                        }
+                        files.push(bytes.clone());
+                    }
                     let n = bytes.len().min(24);
                     reqs.push(format!("raw {} {}", bytes.len(), join(&bytes[..n])));
                 }
                 let replies = drv.ask_many(&reqs);
                 out.nontrivial = bytes.len() >= 2;
-                out.tag("case:hs");
-                for (x, m) in vals.iter().zip(replies) {
-                    if 2 * word + 1 < bytes.len() {
+                out.tag(format!("case:{cmd}"));
+                for (k, (x, m)) in vals.iter().zip(replies).enumerate() {
+                    if cmd == "hc" && !files.is_empty() {
+                        bytes = std::mem::take(&mut files[k]);
+                    } else if 2 * word + 1 < bytes.len() {
                         bytes[2 * word] = (*x >> 8) as u8;
                         bytes[2 * word + 1] = *x as u8;
                     }
@@ -1232,6 +1269,20 @@ impl Property for C10 {
                     for i in 0..toks.len() {
                         c.push(without(i, i + 1));
                     }
+                }
+            }
+            "hc" => {
+                let w: Vec<&str> = rest.split(' ').collect();
+                let (start, count, stride): (usize, usize, usize) = (w[4].parse().unwrap(), w[5].parse().unwrap(), w[6].parse().unwrap());
+                if count > 1 {
+                    for k in 0..count {
+                        let x = start + k * stride;
+                        if x < 65536 {
+                            c.push(format!("hc {} {} {} {} {x} 1 1", w[0], w[1], w[2], w[3]));
+                        }
+                    }
+                } else if w[1] != "0" {
+                    c.push(format!("hc {} 0 {} {} {} 1 1", w[0], w[2], w[3], w[4]));
                 }
             }
             "hs" => {
